@@ -22,7 +22,10 @@ type Framing struct {
 	Dir string // client-read | client-write | server
 	API string // client-read: ReadMsg | ReadMsgHeader | ReadMsgHeaderHdr | Read | ReadShortBuf
 	//             client-write: Write | WriteMsg         server: Write | WriteMsg (what the handler uses to reply)
-	Sizes      []int  // message sizes in octets (client-write and replies may exceed 65535)
+	Sizes []int // message sizes in octets (client-write and replies may exceed 65535)
+	//                   round 10, client-read and server: a size of 0..11 is a frame that is too short to be a DNS
+	//                   message (not even a header); its length prefix delimits it all the same, and the frame
+	//                   after it begins where that length says
 	Seeds      []byte // filler seed per message
 	ReplySizes []int  // server: size of the reply to the i-th request (cyclic)
 	OneWrite   bool   // the writing side hands the whole stream to one Write call (else one call per message)
@@ -67,6 +70,44 @@ func (c *Framing) apiOf(i int) string {
 		return c.APIs[i%len(c.APIs)]
 	}
 	return c.API
+}
+
+// effAPI is apiOf, except that "a buffer one octet too small" makes no sense for a frame of 0..11
+// octets, which is not a message: such a frame is met with a plain Read.
+func (c *Framing) effAPI(i int) string {
+	api := c.apiOf(i)
+	if api == "ReadShortBuf" && i < len(c.Sizes) && c.Sizes[i] < 12 {
+		return "Read"
+	}
+	return api
+}
+
+// frameBody is the body of frame i: a DNS message of Sizes[i] octets, or - below 12 octets - octets
+// that are no message (see runtBody).
+func frameBody(id uint16, size int, seed byte, response bool) []byte {
+	if size < 12 {
+		return runtBody(id, size, seed)
+	}
+	return buildMsg(id, size, seed, response)
+}
+
+// runtBody returns the size (0..11) octets of a frame that is too short to hold a DNS header. By seed:
+// the beginning of a genuine message with this ID, filler, zeros, or big-endian 16-bit numbers that
+// read as plausible lengths (14, 12, 13, 2, 1, 0) - what a reader that has lost the frame boundary
+// would take for the next length prefix.
+func runtBody(id uint16, size int, seed byte) []byte {
+	var b []byte
+	switch seed % 4 {
+	case 0:
+		b = buildMsg(id, 12, seed, true)
+	case 1:
+		b = filler(12, seed)
+	case 2:
+		b = make([]byte, 12)
+	default:
+		b = []byte{0, 14, 0, 12, 0, 13, 0, 2, 0, 1, 0, 0}
+	}
+	return b[:size]
 }
 
 // coalesced reports whether the segmentation lets one read of the transport deliver the end of one
@@ -200,6 +241,22 @@ func genFramingDir(dir string) func(t *rapid.T) Framing {
 			}
 			c.Sizes = append(c.Sizes, s)
 			c.Seeds = append(c.Seeds, rapid.Byte().Draw(t, "seed"))
+		}
+		if (dir == "client-read" || dir == "server") && rapid.IntRange(0, 9).Draw(t, "runts") < 3 {
+			// frames of 0..11 octets among the messages: most of them FOLLOWED by a message, since what such
+			// a frame leaves for the next read is the point
+			if len(c.Sizes) == 1 || rapid.IntRange(0, 3).Draw(t, "runtExtra") == 0 {
+				c.Sizes = append(c.Sizes, rapid.IntRange(12, 700).Draw(t, "sizeAfterRunt"))
+				c.Seeds = append(c.Seeds, rapid.Byte().Draw(t, "seed"))
+			}
+			k := rapid.IntRange(1, 2).Draw(t, "runtN")
+			for j := 0; j < k; j++ {
+				at := rapid.IntRange(0, len(c.Sizes)-1).Draw(t, "runtAt")
+				if at == len(c.Sizes)-1 && rapid.IntRange(0, 3).Draw(t, "runtLast") > 0 {
+					at = rapid.IntRange(0, len(c.Sizes)-2).Draw(t, "runtAtInner")
+				}
+				c.Sizes[at] = rapid.SampledFrom([]int{0, 1, 2, 3, 4, 5, 6, 7, 8, 9, 10, 11, 11, 2, 1}).Draw(t, "runtSize")
+			}
 		}
 		c.OneWrite = rapid.Bool().Draw(t, "oneWrite")
 		c.Chunks = genChunks(t, "chunk")
@@ -353,6 +410,8 @@ func (c *Framing) classes() (cl []string, nontrivial bool) {
 			nontrivial = true
 		case s >= 65533:
 			cl = append(cl, "size=65533..65535")
+		case s >= 0 && s < 12:
+			cl = append(cl, "size<12")
 		case s <= 14:
 			cl = append(cl, "size=12..14")
 		case s >= 254 && s <= 257:
@@ -363,6 +422,27 @@ func (c *Framing) classes() (cl []string, nontrivial bool) {
 	}
 	if len(c.Sizes) > 1 {
 		cl = append(cl, "back-to-back")
+	}
+	for i, s := range c.Sizes {
+		if s < 0 || s >= 12 || (c.Dir != "client-read" && c.Dir != "server") {
+			continue
+		}
+		nontrivial = true
+		if s == 0 {
+			cl = append(cl, "frame-of-0-octets")
+		}
+		if i+1 < len(c.Sizes) {
+			cl = append(cl, "short-frame-followed-by-another-frame")
+			if c.Sizes[i+1] >= 12 {
+				cl = append(cl, "short-frame-followed-by-a-message")
+			}
+			if c.Dir == "client-read" {
+				cl = append(cl, "short-frame-met-by-"+c.effAPI(i)+",next-by-"+c.effAPI(i+1))
+			}
+		}
+		if i > 0 && c.Sizes[i-1] >= 12 {
+			cl = append(cl, "short-frame-after-a-message")
+		}
 	}
 	if c.Dir == "client-read" && c.coalesced() {
 		cl = append(cl, "frames-coalesced-in-one-read")
@@ -426,7 +506,7 @@ func checkClientRead(c Framing) error {
 	var bodies [][]byte
 	var stream []byte
 	for i, s := range c.Sizes {
-		body := buildMsg(c.id(i), s, c.Seeds[i], true)
+		body := frameBody(c.id(i), s, c.Seeds[i], true)
 		bodies = append(bodies, body)
 		if c.OneWrite {
 			stream = append(stream, frame(body)...)
@@ -441,7 +521,7 @@ func checkClientRead(c Framing) error {
 	co := &dns.Conn{Conn: b}
 	pos := 0
 	read := func(i int) (got []byte, m *dns.Msg, err error) {
-		switch c.apiOf(i) {
+		switch c.effAPI(i) {
 		case "ReadMsg":
 			m, err = co.ReadMsg()
 			return nil, m, err
@@ -451,7 +531,7 @@ func checkClientRead(c Framing) error {
 		case "ReadMsgHeaderHdr":
 			var h dns.Header
 			got, err = co.ReadMsgHeader(&h)
-			if err == nil && i < len(bodies) && h.Id != c.id(i) {
+			if err == nil && i < len(bodies) && len(bodies[i]) >= 12 && h.Id != c.id(i) {
 				err = fmt.Errorf("HARNESS-MISMATCH header ID %d", h.Id)
 			}
 			return got, nil, err
@@ -464,7 +544,7 @@ func checkClientRead(c Framing) error {
 			fallthrough
 		default:
 			bl := c.BufLen
-			if bl <= 0 || c.apiOf(i) != "Read" {
+			if bl <= 0 || c.effAPI(i) != "Read" {
 				bl = 65535
 			}
 			buf := make([]byte, bl)
@@ -522,10 +602,13 @@ func checkClientRead(c Framing) error {
 	for i, body := range bodies {
 		end := pos + 2 + len(body)
 		wantOK := c.Fault == "" || end <= c.FaultAt
-		api := c.apiOf(i)
+		api := c.effAPI(i)
 		how := api
-		if i > 0 && c.apiOf(i-1) != api {
-			how = fmt.Sprintf("%s (message %d was taken with %s on the same Conn)", api, i-1, c.apiOf(i-1))
+		if i > 0 && c.effAPI(i-1) != api {
+			how = fmt.Sprintf("%s (message %d was taken with %s on the same Conn)", api, i-1, c.effAPI(i-1))
+		}
+		if i > 0 && len(bodies[i-1]) < 12 {
+			how = fmt.Sprintf("%s (the frame before it, %d, has %d octets [%x] - too short for a DNS message, but delimited by its length like any other - and was met with %s on the same Conn)", api, i-1, len(bodies[i-1]), bodies[i-1], c.effAPI(i-1))
 		}
 		got, m, err := read(i)
 		if api == "ReadShortBuf" {
@@ -552,6 +635,23 @@ func checkClientRead(c Framing) error {
 				return fmt.Errorf("message %d (stream octets %d..%d) cut by %s at octet %d: %s returned no error (%s)", i, pos, end, c.Fault, c.FaultAt, how, describe(got, m))
 			}
 			return nil
+		}
+		if len(body) < 12 {
+			// A complete frame that is too short to be a DNS message. Whether the call refuses it (the
+			// message-level calls do: "short read") or hands its octets over (Conn.Read, the net.Conn-style
+			// call, does) is the call's business; it must not hand over anything else, and - asserted at
+			// the next frame - it must leave the stream at the end of this frame.
+			if err == nil && api == "ReadMsg" {
+				return fmt.Errorf("frame %d has %d octets (%x), fewer than a DNS header: ReadMsg returned a message (%s) with a nil error", i, len(body), body, describe(got, m))
+			}
+			if err == nil && !bytes.Equal(got, body) {
+				return fmt.Errorf("frame %d has %d octets (%x): %s returned %d octets %s with a nil error", i, len(body), body, how, len(got), hexHead(got))
+			}
+			if err == nil {
+				kept[i] = got
+			}
+			pos = end
+			continue
 		}
 		if err != nil {
 			return fmt.Errorf("message %d (%d octets, stream octets %d..%d, fault %q at %d, caller buffer %d octets; frames coalesced in one read: %v): %s failed: %v", i, len(body), pos, end, c.Fault, c.FaultAt, c.BufLen, c.coalesced(), how, err)
@@ -758,7 +858,7 @@ func checkServerFraming(c Framing) error {
 	var bodies [][]byte
 	var stream []byte
 	for i, s := range c.Sizes {
-		body := buildMsg(msgID(i), s, c.Seeds[i], false)
+		body := frameBody(msgID(i), s, c.Seeds[i], false)
 		bodies = append(bodies, body)
 		if c.OneWrite {
 			stream = append(stream, frame(body)...)
@@ -792,26 +892,49 @@ func checkServerFraming(c Framing) error {
 	if c.Fault != "" && c.FaultSide == "read" {
 		complete, _ = completeBefore(c.Sizes, c.FaultAt)
 	}
-	if len(raws) != complete {
-		return fmt.Errorf("server obtained %d messages from the stream, %d were sent completely (sizes %v, fault %q/%s at %d)", len(raws), complete, c.Sizes, c.Fault, c.FaultSide, c.FaultAt)
+	// Frames of 0..11 octets (round 10) are no requests: no handler is called for them. What the server
+	// does with the connection after one is its policy - it may go on (the unchanged library does) or
+	// stop reading - but it must not lose the frame boundary: the messages it reads, and the requests
+	// its handlers see, are, in order, the genuine requests (>= 12 octets) that were sent completely,
+	// all of them, or all of those before one of the short frames.
+	var genuine []int       // indexes of the genuine requests among the completely sent frames
+	stops := map[int]bool{} // admissible numbers of requests read: everything, or everything before a short frame
+	for i := 0; i < complete; i++ {
+		if len(bodies[i]) < 12 {
+			stops[len(genuine)] = true
+			continue
+		}
+		genuine = append(genuine, i)
 	}
-	for i := range raws {
-		if !bytes.Equal(raws[i], bodies[i]) {
-			return fmt.Errorf("request %d: server read %d octets %s, client sent %d octets %s (first difference at %d)", i, len(raws[i]), hexHead(raws[i]), len(bodies[i]), hexHead(bodies[i]), firstDiff(raws[i], bodies[i]))
+	stops[len(genuine)] = true
+	var rawsG [][]byte // what the reader handed the server, without the frames that are no messages
+	for _, r := range raws {
+		if len(r) >= 12 {
+			rawsG = append(rawsG, r)
 		}
 	}
-	if len(seen) != complete {
-		return fmt.Errorf("handler called %d times for %d complete requests", len(seen), complete)
+	if !stops[len(rawsG)] {
+		return fmt.Errorf("server obtained %d messages from the stream, %d requests (and %d frames too short for a header) were sent completely (sizes %v, fault %q/%s at %d)", len(rawsG), len(genuine), complete-len(genuine), c.Sizes, c.Fault, c.FaultSide, c.FaultAt)
 	}
-	for i, m := range seen {
+	for j := range rawsG {
+		i := genuine[j]
+		if !bytes.Equal(rawsG[j], bodies[i]) {
+			return fmt.Errorf("request %d (frame %d of sizes %v): server read %d octets %s, client sent %d octets %s (first difference at %d)", j, i, c.Sizes, len(rawsG[j]), hexHead(rawsG[j]), len(bodies[i]), hexHead(bodies[i]), firstDiff(rawsG[j], bodies[i]))
+		}
+	}
+	if len(seen) != len(rawsG) {
+		return fmt.Errorf("handler called %d times for %d complete requests (sizes %v)", len(seen), len(rawsG), c.Sizes)
+	}
+	for j, m := range seen {
+		i := genuine[j]
 		if e := sameAsBuilt(m, msgID(i), len(bodies[i]), c.Seeds[i]); e != nil {
-			return fmt.Errorf("request %d: handler saw a different message: %v", i, e)
+			return fmt.Errorf("request %d (frame %d of sizes %v): handler saw a different message: %v", j, i, c.Sizes, e)
 		}
 	}
 	// what must be on the wire back to the client
 	var expected []byte
 	faulted := false
-	for i := 0; i < complete; i++ {
+	for i := 0; i < len(seen); i++ {
 		rs := c.ReplySizes[i%len(c.ReplySizes)]
 		if rs == unsignable {
 			if writeErrs[i] == nil {
@@ -825,7 +948,7 @@ func checkServerFraming(c Framing) error {
 			}
 			continue
 		}
-		f := frame(buildMsg(msgID(i), rs, byte(i*31+7), true))
+		f := frame(buildMsg(msgID(genuine[i]), rs, byte(i*31+7), true))
 		crossing := c.Fault != "" && c.FaultSide == "write" && (faulted || len(expected)+len(f) > c.FaultAt)
 		if crossing {
 			if writeErrs[i] == nil {
